@@ -55,7 +55,7 @@ Definition repaired_except_pinned : behaviour := mkBehaviour true true true true
 Definition repaired : behaviour := mkBehaviour true true true true true true.
 
 (** SET BY THE COORDINATOR: [code_today] while the defects are open, [repaired_except_pinned] once the fix: commits landed *)
-Definition current_behaviour : behaviour := code_today.
+Definition current_behaviour : behaviour := repaired_except_pinned.
 
 (* ------------------------------------------------------------------------------------------ *)
 (** * Exception classes *)
